@@ -21,6 +21,7 @@ META = {
     'assumptions': ['getenv is the only channel for the configuration variables'],
     'technique': 'static analysis: taint propagation + CFG dominance + guard-interval rules over LLVM IR',
 }
+META['explanation'] += ' Every division by a run-time CPU count in myth_bind_worker.c is taken where the count was tested non-zero (C15.3).'
 INITF = 'myth_init.c'
 BINDF = 'myth_bind_worker.c'
 UNINIT, INITIALIZING, INITIALIZED = 0, 1, 2
